@@ -394,3 +394,22 @@ prop(
     essential=dict(quick=["read:blocking", "read:nonblocking", "write:blocking", "write:nonblocking", "startup-input:blocking", "startup-input:nonblocking", "pipe-empty-and-open", "pipe-full-and-open", "far-side-closed", "waited-for-child", "blocks-forever-expected", "input-at-or-above-capacity", "input-delivered", "input-start-failed"]),
     assumptions=["SIGPIPE is ignored in the parent (README, Gotchas)", "read size 0 is C02's subject"],
 )
+
+prop(
+    "C14",
+    title="Any call sequence follows the documented life cycle; misuse errors, never UB",
+    level="exploration",
+    engine="vtime",
+    campaigns=[dict(bin="C14", random=dict(quick=4000, thorough=80000))],
+    level_text=("Model-based sequences of 1-40 (thorough 120) calls over up to three handles: new; start (valid with generated redirects/nonblocking/deadline, four classes of invalid options, missing "
+                "program, fork mode - whose child side then calls every function and must get EINVAL from all but destroy); pid; write (data, NULL/0, NULL/n); read (stdout, stderr, stdin, out-of-range); "
+                "close (incl. out-of-range, twice); poll (1-4 sources incl. NULL, repeated and not-started handles, NULL array, zero count); wait; terminate; kill; stop (incl. out-of-range actions); destroy; "
+                "NULL handles everywhere; interleaved with scripted child writes, closes, exits and passing virtual time. After every call the return value must be in the set the reference model allows for "
+                "the handle's state; the case process runs the ASan+UBSan build with asserts on, so a memory error, UB report, assert or crash is a violation with the sequence as replay."),
+    level_note="Only valid pointers are passed (a destroyed handle is never reused). Where the documentation leaves latitude the model accepts every documented value (e.g. read/write/close before start: EPIPE/0 or EINVAL).",
+    technique="stateful model-based property testing (rapidcheck tape decoded into an operation sequence) on the virtual-time engine, sanitizer build as crash oracle",
+    rule=("tape -> per step: handle index (3 slots), NULL handle (1/25), operation kind and parameters, child actions. Non-trivial: the sequence contains a call that is misuse in the state it is made (before "
+          "start, after exit, after close, twice, on NULL, invalid parameter) and at least one successful start. Distinct: hash of the (operation, state) sequence."),
+    essential=dict(quick=["misuse-call", "successful-start", "several-children", "fork-child-side"]),
+    assumptions=["reads are only issued when they cannot block for ever; stdin writes stay below the pipe capacity", "invalid pointers are out of scope by the property's wording"],
+)
